@@ -57,6 +57,9 @@ def run(ctx):
     datasets = [gen.any_dataset(rng, f, **kw) for f, kw in fixed]
     while len(datasets) < n_ds:
         datasets.append(gen.any_dataset(rng))
+    twin_leg(ctx, [gen.any_dataset(rng, f, **kw) for f, kw in [('cf1d', dict(ny=3, nx=4)), ('cf2d', dict(ny=3, nx=3, invalid=False)),
+                                                               ('shoc_standard', dict(nj=2, ni=3, invalid=False)),
+                                                               ('ugrid', dict(w=3, h=2, invalid=False))]])
     exprs, plans = [], []
     for d in datasets:
         flav = FLAVOUR[d.family]
@@ -196,3 +199,65 @@ def run(ctx):
                            f'{brute}', case)
             elif shapely.Polygon(q).area > 0 and brute != mh:
                 ctx.report('correspondence', f'model hits {mh} differ from GEOS {brute}', case, found_input=False)
+
+
+def twin_leg(ctx, datasets):
+    """Two datasets alive in one process that come from the same file and have the same sizes but describe different cells
+    (the second is the first with its coordinates corrected in memory after opening): position n of the second must denote
+    ITS cell n everywhere - nothing remembered from the first may leak."""
+    import os
+    import shutil
+    import tempfile
+    import warnings
+    tmp = tempfile.mkdtemp(prefix='c02_twin_', dir=os.environ.get('VERIF_WORK', '/verif/work'))
+    try:
+        for k, d in enumerate(datasets):
+            path = os.path.join(tmp, f'twin_{k}.nc')
+            enc = {v: {'_FillValue': None} for v in d.ds.variables if d.ds[v].dtype.kind == 'f' and '_FillValue' not in d.ds[v].attrs}
+            with warnings.catch_warnings():
+                warnings.simplefilter('ignore')
+                try:
+                    d.ds.to_netcdf(path, encoding=enc)
+                    a = emsarray.open_dataset(path)
+                    a.load()
+                    pa = pm.impl_polygons(a.ems)
+                    ca = numpy.asarray(a.ems.face_centres)
+                    a.ems.strtree
+                except Exception:       # noqa: BLE001  (not what this leg is about: the other legs report it)
+                    continue
+                b = gen.shift_coordinates(a, dlon=1.5, dlat=0.75, max_lat=1e9)
+                b.encoding = dict(a.encoding)
+                case = {'dataset': d.spec['label'], 'what': 'same file, same sizes, coordinates shifted by (1.5, 0.75) after opening'}
+                ctx.case((d.spec['label'], 'twin'), True)
+                ctx.count('twin:edited after opening')
+                r = attempt(lambda: (pm.impl_polygons(b.ems), numpy.asarray(b.ems.face_centres)))
+            if r[0] != 'ok':
+                ctx.report('property', f'polygons / face centres of the edited dataset failed: {r[1]}', case)
+                continue
+            pb, cb = r[1]
+            want = [None if p is None else [(x + 1.5, y + 0.75) for x, y in p] for p in pa]
+            bad = None
+            if pb != want:
+                n = next((i for i, (x, y) in enumerate(zip(pb, want)) if x != y), None)
+                bad = (f'position {n}: polygon {None if n is None or pb[n] is None else pb[n][:3]} of the edited dataset is not its '
+                       f'own cell {None if n is None or want[n] is None else want[n][:3]} (nothing of the dataset opened first may be reused)')
+            elif len(cb) == len(ca) and not numpy.allclose(cb, ca + numpy.array([1.5, 0.75]), rtol=0, atol=1e-9, equal_nan=True):
+                # (centres computed as centroids are not shifted bit for bit: compared to 1e-9)
+                bad = 'face centres of the edited dataset are not its own cell centres'
+            else:
+                for n, p in enumerate(want):
+                    if p is None:
+                        continue
+                    c = shapely.Polygon(p).representative_point()
+                    with warnings.catch_warnings():
+                        warnings.simplefilter('ignore')
+                        hits = sorted(int(i) for i in b.ems.strtree.query(c, predicate='intersects'))
+                    brute = [i for i, q in enumerate(want) if q is not None and shapely.Polygon(q).intersects(c)]
+                    if hits != brute:
+                        bad = f'spatial index of the edited dataset returns {hits} at a point of its cell {n}; its cells there are {brute}'
+                        break
+            if bad:
+                ctx.report('property', bad, case)
+            a.close()
+    finally:
+        shutil.rmtree(tmp, ignore_errors=True)
